@@ -35,6 +35,7 @@ use never::Never;
 
 mod pipeline;
 mod threads;
+mod tree;
 
 // ---------------------------------------------------------------- script types
 
@@ -106,6 +107,11 @@ struct World {
     subscribe: Option<Rc<dyn Fn(usize, usize, u64)>>,
     /// number of calls of user closures (map's f, filter's predicate, scan's reducer)
     evals: u64,
+    /// tree mode (no model to vet the script): the harness itself keeps the scripted sink conformant
+    tree_mode: bool,
+    tree_pull: bool,
+    sink_live: bool,
+    sink_credit: u64,
 }
 
 thread_local! {
@@ -221,6 +227,15 @@ fn peer_called(sub: usize, tok: String) {
 }
 
 fn perform(sub: usize, inp: Inp, tok: String) {
+    if let Inp::Up(_, ref m) = inp {
+        let skip = w(|w| {
+            w.tree_mode
+                && (!w.sink_live || (w.tree_pull && matches!(m, UMsg::P) && w.sink_credit == 0))
+        });
+        if skip {
+            return; // a conformant sink does not make this move: it is dropped from the script
+        }
+    }
     rec_sub(sub, format!(">{}", tok));
     w(|w| w.ctx.push(sub));
     match inp {
@@ -236,6 +251,11 @@ fn perform(sub: usize, inp: Inp, tok: String) {
         Inp::Up(s, m) => {
             let tb = w(|w| w.sink_tb.get(&(sub, s)).cloned());
             if let Some(tb) = tb {
+                if matches!(m, UMsg::T | UMsg::E(_)) {
+                    w(|w| w.sink_live = false);
+                } else {
+                    w(|w| w.sink_credit = w.sink_credit.saturating_sub(1));
+                }
                 tb(m);
             }
         }
@@ -296,12 +316,25 @@ fn mk_sink<O: Show + 'static>(sub: usize, s: usize) -> Arc<Sink<O>> {
                         UMsg::T => tb(Message::Terminate),
                         UMsg::E(id) => tb(Message::Error(err_arc(id))),
                     });
-                    w(|w| w.sink_tb.insert((sub, s), wrapped));
+                    w(|w| {
+                        w.sink_tb.insert((sub, s), wrapped);
+                        w.sink_live = true;
+                        w.sink_credit += 1;
+                    });
                     format!("<dn{}:H", s)
                 }
-                Message::Data(v) => format!("<dn{}:D{}", s, v.show()),
-                Message::Terminate => format!("<dn{}:T", s),
-                Message::Error(e) => format!("<dn{}:{}", s, err_id(&e)),
+                Message::Data(v) => {
+                    w(|w| w.sink_credit += 1);
+                    format!("<dn{}:D{}", s, v.show())
+                }
+                Message::Terminate => {
+                    w(|w| w.sink_live = false);
+                    format!("<dn{}:T", s)
+                }
+                Message::Error(e) => {
+                    w(|w| w.sink_live = false);
+                    format!("<dn{}:{}", s, err_id(&e))
+                }
                 Message::Pull => format!("<dn{}:?Pull", s),
             };
             peer_called(sub, tok);
@@ -583,6 +616,7 @@ fn build(kv: &Kv) -> Rc<dyn Fn(usize, usize, u64)> {
         }
         "share" => sub_to(Arc::new(share(src0()))),
         "interval" => sub_to(Arc::new(interval(Duration::from_millis(1000), MockNursery))),
+        "tree" => sub_to(tree::build_tree(kv.get("tree").map(|s| s.as_str()).unwrap_or("fi:-"))),
         other => panic!("unknown op {}", other),
     }
 }
@@ -646,6 +680,8 @@ fn run_script(line: &str) -> String {
         w.script = moves;
         w.recording = true;
         w.subs = geti(&kv, "subs", 1) as usize;
+        w.tree_mode = kv.get("op").map(|s| s == "tree").unwrap_or(false);
+        w.tree_pull = kv.get("env").map(|s| s == "pull").unwrap_or(false);
     });
     let subscribe = build(&kv);
     w(|w| w.subscribe = Some(subscribe));
